@@ -52,6 +52,17 @@ Lemma dec_int_cons b r :
        end.
 Proof. reflexivity. Qed.
 
+(* ---------------------------------------------------------------- mask/shift = mod/div *)
+
+Lemma lo7_mod n : lo7 n = n mod 128.
+Proof. unfold lo7. change 127 with (N.ones 7). rewrite N.land_ones. reflexivity. Qed.
+Lemma hi7_div n : hi7 n = n / 128.
+Proof. unfold hi7. rewrite N.shiftr_div_pow2. reflexivity. Qed.
+Lemma lo6_mod n : lo6 n = n mod 64.
+Proof. unfold lo6. change 63 with (N.ones 6). rewrite N.land_ones. reflexivity. Qed.
+Lemma hi6_div n : hi6 n = n / 64.
+Proof. unfold hi6. rewrite N.shiftr_div_pow2. reflexivity. Qed.
+
 (* ---------------------------------------------------------------- fuel of enc_nat *)
 
 Lemma size_nat_div128 n : 128 <= n -> (N.size_nat (n / 128) + 7 <= N.size_nat n)%nat.
@@ -80,7 +91,7 @@ Proof.
   - destruct f2 as [|f2].
     + assert (n = 0) by (apply size_nat_0; lia). subst. reflexivity.
     + cbn [enc_nat_fuel]. destruct (n <? 128) eqn:E; [reflexivity|].
-      f_equal. assert (128 <= n) by lia.
+      rewrite hi7_div. f_equal. assert (128 <= n) by lia.
       pose proof (size_nat_div128 n H). apply IH; lia.
 Qed.
 
@@ -90,7 +101,7 @@ Proof.
   unfold enc_nat. destruct (N.size_nat n) as [|f] eqn:Ef.
   - apply size_nat_0 in Ef. subst. reflexivity.
   - cbn [enc_nat_fuel]. destruct (n <? 128) eqn:E; [reflexivity|].
-    f_equal. assert (128 <= n) by lia. pose proof (size_nat_div128 n H).
+    rewrite lo7_mod, hi7_div. f_equal. assert (128 <= n) by lia. pose proof (size_nat_div128 n H).
     apply enc_nat_fuel_indep; lia.
 Qed.
 
@@ -261,7 +272,7 @@ Qed.
 
 Lemma dec_enc_int z r : dec_int (enc_int z ++ r) = Some (z, r).
 Proof.
-  unfold enc_int.
+  unfold enc_int. rewrite lo6_mod, hi6_div.
   destruct (Z.abs_N z <? 64) eqn:Ea.
   - cbn [app]; rewrite dec_int_cons; cbv zeta. destruct (z <? 0)%Z eqn:Es.
     + rewrite to_N_b8_small by lia.
@@ -296,13 +307,13 @@ Proof.
     destruct (64 <=? Byte.to_N b mod 128) eqn:E2.
     + destruct (N.eq_dec (Byte.to_N b) 64) as [E64|N64].
       * right. split; [rewrite E64; reflexivity|]. f_equal. apply to_N_inj. exact E64.
-      * left. unfold enc_int.
+      * left. unfold enc_int. rewrite lo6_mod, hi6_div.
         replace (Z.abs_N (- Z.of_N (Byte.to_N b mod 64))) with (Byte.to_N b mod 64) by lia.
         destruct (Byte.to_N b mod 64 <? 64) eqn:E3; [|lia].
         destruct (- Z.of_N (Byte.to_N b mod 64) <? 0)%Z eqn:E4; [|lia].
         replace (64 + Byte.to_N b mod 64) with (Byte.to_N b) by lia.
         rewrite b8_to_N. reflexivity.
-    + left. unfold enc_int.
+    + left. unfold enc_int. rewrite lo6_mod, hi6_div.
       replace (Z.abs_N (Z.of_N (Byte.to_N b mod 64))) with (Byte.to_N b mod 64) by lia.
       destruct (Byte.to_N b mod 64 <? 64) eqn:E3; [|lia].
       destruct (Z.of_N (Byte.to_N b mod 64) <? 0)%Z eqn:E4; [lia|].
@@ -310,7 +321,7 @@ Proof.
       rewrite b8_to_N. reflexivity.
   - destruct (dec_nat bs) as [[hi r']|] eqn:D; [|discriminate].
     destruct (hi =? 0) eqn:E0; [discriminate|]. apply some_pair_inj in H; destruct H as [<- <-].
-    apply enc_dec_nat in D. subst bs. left. unfold enc_int.
+    apply enc_dec_nat in D. subst bs. left. unfold enc_int. rewrite lo6_mod, hi6_div.
     destruct (64 <=? Byte.to_N b mod 128) eqn:E2.
     + replace (Z.abs_N (- Z.of_N (Byte.to_N b mod 64 + 64 * hi))) with (Byte.to_N b mod 64 + 64 * hi) by lia.
       destruct (Byte.to_N b mod 64 + 64 * hi <? 64) eqn:E3; [lia|].
